@@ -69,7 +69,7 @@ func runC19(c *Ctx) {
 			if !IsLoadOfField(cs.Common().Args[0], q) {
 				continue
 			}
-			ok := o.Name() == "TryAdd" || o.Name() == "Close" || o.Name() == "Len" || (o.Name() == "WaitOne" && TopFunc(fn) == writeLoop)
+			ok := o.Name() == "TryAdd" || o.Name() == "Close" || o.Name() == "Len" || (o.Name() == "WaitOne" && effectiveOwner(p, fn) == writeLoop)
 			c.Check(ok, "C19.1-queue-api", FuncName(fn)+"|stream.queue."+o.Name(), p.Pos(InstrPos(cs)), "the per-stream queue is fed with TryAdd (drop when full) and drained only by writeLoop")
 		}
 	}
@@ -292,10 +292,28 @@ func runC19(c *Ctx) {
 				}
 				return false, false
 			})
+			// the loop body may have been moved into a step function `for sr.next() {}`: its
+			// `return true` means "take the next message", not an exit of the write loop
+			writeLoopTop := writeLoop
+			writeLoop, _ := descendTo(writeLoop, calleeMethod("cheggaaa/mb", "WaitOne"))
+			c.Fn(FuncName(writeLoop))
+			exits := func() []ssa.Instruction {
+				var out []ssa.Instruction
+				for _, ri := range Returns(writeLoop) {
+					ret := ri.(*ssa.Return)
+					if writeLoop != writeLoopTop && len(ret.Results) == 1 {
+						if b, isC := BoolConst(ret.Results[0]); isC && b {
+							continue
+						}
+					}
+					out = append(out, ri)
+				}
+				return out
+			}
 			pe, _ := errClosed.PassEdges(writeLoop)
 			r := Reach(writeLoop, ReachOpts{Removed: pe, Cut: CutAtCall(CalleeFn(streamClose))})
 			bad := ""
-			for _, ret := range Returns(writeLoop) {
+			for _, ret := range exits() {
 				if r.Reachable(ret) {
 					bad = "writeLoop can return at " + p.Pos(InstrPos(ret)) + " without streamClose although the queue was not closed"
 				}
@@ -324,7 +342,7 @@ func runC19(c *Ctx) {
 							bad2 = "after a failed MsgSend the write loop waits for the next message without streamClose: the broken stream stays indexed and keeps being targeted"
 						}
 					}
-					for _, ret := range Returns(writeLoop) {
+					for _, ret := range Returns(writeLoop) { // (a `return true` of a step function would take the next message)
 						if r2.Reachable(ret) {
 							bad2 = "after a failed MsgSend writeLoop returns without streamClose"
 						}
@@ -363,6 +381,9 @@ func runC19(c *Ctx) {
 			streams := p.Field(spPkg + ":streamPool.streams")
 			tags := p.Field(spPkg + ":stream.tags")
 			okPeer, okTag, okDel := false, false, false
+			// the locked index cleanup may have been split off into a function of its own
+			removeStream, _ := descendTo(removeStream, CalleeFn(helper))
+			c.Fn(FuncName(removeStream))
 			loops := Loops(removeStream)
 			for _, cs := range CallSinks(removeStream, CalleeFn(helper), false) {
 				a := cs.(*ssa.Call).Call.Args
